@@ -32,6 +32,18 @@ const SWAPS: &[(&str, &str)] = &[
     ("fold", "for_while"),
     ("Either<", "Option<"),
     ("List<", "Option<"),
+    // semantic errors that the grammar accepts
+    (", 4>", ", 5>"),
+    (", 8>", ", 6>"),
+    (", 2>", ", 3>"),
+    ("; 3]", "; 99999999999999999999999]"),
+    ("; 2]", "; 18446744073709551616]"),
+    ("=> 0,", "=> (),"),
+    ("=> true,", "=> 1,"),
+    ("true => ", "true => 0xffff, false => "),
+    ("fn ", "fn fn_"),
+    ("type ", "type u8"),
+    ("u8", "u3"),
 ];
 
 fn find_all(text: &str, pat: &str) -> Vec<usize> {
@@ -187,4 +199,69 @@ pub fn layout(rng: &mut Prng, text: &str) -> String {
             out
         }
     }
+}
+
+/// Change one digit of one numeric literal without changing any position in the file: the
+/// result has exactly the same spans as the original, only a different constant.
+pub fn same_span_literal(rng: &mut Prng, text: &str) -> Option<String> {
+    if !text.is_ascii() {
+        return None;
+    }
+    let b = text.as_bytes();
+    // (start, end) of tokens that begin with a digit
+    let mut toks: Vec<(usize, usize)> = Vec::new();
+    let mut i = 0;
+    let mut in_line_comment = false;
+    while i < b.len() {
+        if in_line_comment {
+            if b[i] == b'\n' {
+                in_line_comment = false;
+            }
+            i += 1;
+            continue;
+        }
+        if b[i] == b'/' && i + 1 < b.len() && b[i + 1] == b'/' {
+            in_line_comment = true;
+            i += 2;
+            continue;
+        }
+        let is_word = |c: u8| c.is_ascii_alphanumeric() || c == b'_';
+        if b[i].is_ascii_digit() && (i == 0 || !is_word(b[i - 1])) {
+            let s = i;
+            while i < b.len() && is_word(b[i]) {
+                i += 1;
+            }
+            toks.push((s, i));
+        } else {
+            i += 1;
+        }
+    }
+    // type names such as u8 / u32 start with a letter, array sizes and list bounds are digits too:
+    // changing those gives a type error or another program - both are fine, the golden run decides
+    if toks.is_empty() {
+        return None;
+    }
+    for _ in 0..8 {
+        let (s, e) = *rng.pick(&toks);
+        let tok = &text[s..e];
+        let (digits_from, radix) = if tok.starts_with("0x") {
+            (s + 2, 16)
+        } else if tok.starts_with("0b") {
+            (s + 2, 2)
+        } else {
+            (s, 10)
+        };
+        let positions: Vec<usize> = (digits_from..e).filter(|p| (b[*p] as char).is_digit(radix)).collect();
+        if positions.is_empty() {
+            continue;
+        }
+        let p = *rng.pick(&positions);
+        let old = (b[p] as char).to_digit(radix).unwrap();
+        let new = (old + 1 + rng.below(radix as usize - 1) as u32) % radix;
+        let c = std::char::from_digit(new, radix).unwrap();
+        let mut out = text.to_string();
+        out.replace_range(p..p + 1, &c.to_string());
+        return Some(out);
+    }
+    None
 }
